@@ -405,7 +405,8 @@ class kMinPathError(pathmodel.AbstractPathModelDAG):
                 continue
 
             f_u_v = data[self.flow_attr]
-            edge_error_scaling_u_v = self.edge_error_scaling.get((u, v), 1)
+            # float(): the solver accepts Python numbers only as coefficients, not numpy integer or float32 scalars
+            edge_error_scaling_u_v = float(self.edge_error_scaling.get((u, v), 1))
 
             # We encode that edge_vars[(u,v,i)] * self.path_weights_vars[(i)] = self.pi_vars[(u,v,i)],
             # assuming self.w_max is a bound for self.path_weights_vars[(i)]
@@ -550,7 +551,8 @@ class kMinPathError(pathmodel.AbstractPathModelDAG):
                 continue
 
             f_u_v = data[self.flow_attr]
-            edge_error_scaling_u_v = self.edge_error_scaling.get((u, v), 1)
+            # float(): the solver accepts Python numbers only as coefficients, not numpy integer or float32 scalars
+            edge_error_scaling_u_v = float(self.edge_error_scaling.get((u, v), 1))
 
             # We encode that edge_vars[(u,v,i)] * self.path_slacks_vars[(i)] = self.gamma_vars[(u,v,i)],
             # assuming self.w_max is a bound for self.path_slacks_vars[(i)]
